@@ -7,7 +7,7 @@ MCInit == sh \in (IF WithBoundary THEN {<<>>} \cup BoundarySet ELSE {<<>>})
 Spec == MCInit /\ [][Next]_sh
 
 C03_Listing == UnfoldIsListing(sh)
-C03_Lookup == ScansAreFirstMatch(sh, "zz", "float64")
+C03_Lookup == ScansAreFirstMatch(sh, "zz", "uintptr")
 C03_InBounds == ByValueInBounds(sh)
 \* New(names) keeps the requested order (all pairs of keys, both orders, the repeated key); FMapN is positional
 C03_Select == LET u == Unfold(sh)  l == Listing(sh) IN
